@@ -72,6 +72,9 @@ def decOp : List V → Option Op
   | [.a "process", m, t] => do pure (.process (← m.int?) (← t.nat?))
   | [.a "ping"] => some .ping
   | [.a "reopen"] => some .reopen
+  | [.a "wbegin"] => some .wbegin
+  | [.a "wend"] => some .wend
+  | [.a "quiet"] => some .quiet
   | _ => none
 
 def encRes : Res → V
@@ -141,7 +144,15 @@ def decObs : V → Option Obs
   * `discard-unexpected` — a Tdiscarded is written only for a tag that is due: the time-out
     callback ran for a request whose frame was written with that tag and not answered since;
     each written Tdiscarded settles one due entry;
-  * `discard-missing` — when the send queue is empty, no Tdiscarded is due any more. -/
+  * `discard-missing` — when the send queue is empty, no Tdiscarded is due any more;
+  * `timeout-not-discarded` — stated on what the caller and the peer see, not on the callback:
+    when the deadline event of a request fires (its caller is handed TimeoutError) while a frame
+    of it has been written and not answered, a Tdiscarded naming that frame's tag must follow.
+    "Written" is counted from the moment the `write` call was issued (`wrote` of a `wbegin` step
+    is the frame whose write is in progress from then on), so a deadline that expires *while
+    the write is blocked* is covered.  The obligation lapses if the peer answers the tag in the
+    meantime.  It is judged at `quiet` points (nothing runnable) at which the send queue is empty
+    and no write is in progress — the only moments at which "has been sent" is decided. -/
 
 structure Acc where
   unans : List (Nat × Nat) := []   -- (tag, request id) of written request frames the peer has not answered since
@@ -150,6 +161,8 @@ structure Acc where
   nreq : Nat := 0                  -- requests issued on this connection (= the next request id)
   fired : List Nat := []           -- requests whose deadline event has fired
   owed : List Nat := []            -- tags for which a Tdiscarded is due and not yet written
+  must : List Nat := []            -- tags of written, unanswered frames whose request timed out: Tdiscarded not yet seen
+  inprog : Bool := false           -- a `write` call is in progress (`wbegin` without its `wend`)
   deriving Repr
 
 /-- tags of the written, unanswered request frames -/
@@ -174,30 +187,69 @@ def eraseAll (l : List Nat) : List Nat → List Nat
 def tagsOf (unans : List (Nat × Nat)) (rid : Nat) : List Nat :=
   (unans.filter (fun p => p.2 == rid)).map (·.1)
 
+/-- remove the tags named by written Tdiscarded frames -/
+def dropDiscarded (l : List Nat) (fs : List Frame) : List Nat :=
+  l.filter (fun t => !(discTags fs).contains t)
+
+/-- `must` after a step: the firing of a deadline event adds the tags of the request's written,
+    unanswered frames; a peer frame on a tag cancels it; a written Tdiscarded settles it -/
+def mustAfter (a : Acc) (op : Op) (o : Obs) : List Nat :=
+  match op with
+  | .reopen => []
+  | .fire rid => dropDiscarded (a.must ++ tagsOf a.unans rid) o.wrote
+  | .process _ t => dropDiscarded (a.must.filter (fun x => x != t)) o.wrote
+  | _ => dropDiscarded a.must o.wrote
+
+def inprogAfter (a : Acc) (op : Op) : Bool :=
+  match op with
+  | .reopen => false
+  | .wbegin => true
+  | .wend => false
+  | _ => a.inprog
+
 /-- the accumulator after a step -/
 def Acc.after (a : Acc) (op : Op) (o : Obs) : Acc :=
   match op with
-  | .reopen => { unans := [], peak := o.tagmap.length, pfree := o.free, nreq := 0, fired := [], owed := [] }
-  | .process _ t =>
+  | .reopen => { unans := [], peak := o.tagmap.length, pfree := o.free, nreq := 0, fired := [], owed := [],
+                 must := [], inprog := false }
+  | .process m t =>
     { a with unans := a.unans.filter (fun p => p.1 != t) ++ reqPairs o.wrote,
              peak := Nat.max a.peak o.tagmap.length, pfree := o.free,
-             owed := eraseAll a.owed (discTags o.wrote) }
-  | .req e _ =>
+             owed := eraseAll a.owed (discTags o.wrote),
+             must := mustAfter a (.process m t) o, inprog := inprogAfter a (.process m t) }
+  | .req e p =>
     { a with unans := a.unans ++ reqPairs o.wrote, peak := Nat.max a.peak o.tagmap.length, pfree := o.free,
              nreq := a.nreq + 1, fired := if e = .pre then a.nreq :: a.fired else a.fired,
-             owed := eraseAll a.owed (discTags o.wrote) }
+             owed := eraseAll a.owed (discTags o.wrote),
+             must := mustAfter a (.req e p) o, inprog := inprogAfter a (.req e p) }
   | .fire rid =>
     { a with unans := a.unans ++ reqPairs o.wrote, peak := Nat.max a.peak o.tagmap.length, pfree := o.free,
-             fired := rid :: a.fired, owed := eraseAll a.owed (discTags o.wrote) }
+             fired := rid :: a.fired, owed := eraseAll a.owed (discTags o.wrote),
+             must := mustAfter a (.fire rid) o, inprog := inprogAfter a (.fire rid) }
   | .notify rid =>
     { a with unans := a.unans ++ reqPairs o.wrote, peak := Nat.max a.peak o.tagmap.length, pfree := o.free,
-             owed := eraseAll (a.owed ++ tagsOf a.unans rid) (discTags o.wrote) }
+             owed := eraseAll (a.owed ++ tagsOf a.unans rid) (discTags o.wrote),
+             must := mustAfter a (.notify rid) o, inprog := inprogAfter a (.notify rid) }
   | .send =>
     { a with unans := a.unans ++ reqPairs o.wrote, peak := Nat.max a.peak o.tagmap.length, pfree := o.free,
-             owed := eraseAll a.owed (discTags o.wrote) }
+             owed := eraseAll a.owed (discTags o.wrote),
+             must := mustAfter a .send o, inprog := inprogAfter a .send }
   | .ping =>
     { a with unans := a.unans ++ reqPairs o.wrote, peak := Nat.max a.peak o.tagmap.length, pfree := o.free,
-             owed := eraseAll a.owed (discTags o.wrote) }
+             owed := eraseAll a.owed (discTags o.wrote),
+             must := mustAfter a .ping o, inprog := inprogAfter a .ping }
+  | .wbegin =>
+    { a with unans := a.unans ++ reqPairs o.wrote, peak := Nat.max a.peak o.tagmap.length, pfree := o.free,
+             owed := eraseAll a.owed (discTags o.wrote),
+             must := mustAfter a .wbegin o, inprog := inprogAfter a .wbegin }
+  | .wend =>
+    { a with unans := a.unans ++ reqPairs o.wrote, peak := Nat.max a.peak o.tagmap.length, pfree := o.free,
+             owed := eraseAll a.owed (discTags o.wrote),
+             must := mustAfter a .wend o, inprog := inprogAfter a .wend }
+  | .quiet =>
+    { a with unans := a.unans ++ reqPairs o.wrote, peak := Nat.max a.peak o.tagmap.length, pfree := o.free,
+             owed := eraseAll a.owed (discTags o.wrote),
+             must := mustAfter a .quiet o, inprog := inprogAfter a .quiet }
 
 def isReqOk (op : Op) (o : Obs) : Bool :=
   match op with
@@ -277,10 +329,19 @@ def specObs12 (cfg : Cfg) (a : Acc) (idx : Nat) (op : Op) (o : Obs) : Verdict :=
     .fail "discard-missing" [V.ofNat idx, V.ofNats (a.after op o).owed]
   else .ok
 
+/-- the clause `timeout-not-discarded` (ThriftMux only): at a quiet point with an empty send queue
+    and no write in progress, no timed-out request has a written, unanswered frame without its
+    Tdiscarded -/
+def specObsM (cfg : Cfg) (a : Acc) (idx : Nat) (op : Op) (o : Obs) : Verdict :=
+  if op == .quiet && cfg.fl == .thriftmux && o.qlen == 0 && !a.inprog && !a.must.isEmpty then
+    .fail "timeout-not-discarded" [V.ofNat idx, V.ofNats a.must]
+  else .ok
+
 def specGo12 (cfg : Cfg) (a : Acc) (idx : Nat) : List (Op × Obs) → Verdict
   | [] => .ok
   | (op, o) :: rest =>
-    ((specObs cfg a idx op o).and (fun _ => specObs12 cfg a idx op o)).and
+    (((specObs cfg a idx op o).and (fun _ => specObs12 cfg a idx op o)).and
+        (fun _ => specObsM cfg a idx op o)).and
       (fun _ => specGo12 cfg (a.after op o) (idx + 1) rest)
 
 /-- C11 + C02 + C12 (multiplexed hop): what the component evaluates -/
